@@ -546,6 +546,11 @@ def cleanShadow (fs : FS) (o : Opts) (D : Path) (st : Name) : Bool :=
 def dirCellOK (fs : FS) (o : Opts) (fuel : Nat) (D : Path) (n : Name) : Bool :=
   !hasSourceBelow fs fuel (D ++ [(splitext n).1]) || cleanShadow fs o D (splitext n).1
 
+/-- for a namespace near miss the crawl only reaches the search root when the top-level directory of the module is a
+    regular package or the root is an explicit base (asked of every root that has the module's directory at all) -/
+def topOK (fs : FS) (o : Opts) (roots : List Path) (m : List Name) : Bool :=
+  roots.all fun R => o.isBase R || m.length ≤ 1 || !fs.isDir (R ++ m.dropLast) || hasInit fs (R ++ [m.headD []])
+
 /-- the sibling stub of a source file: `x.py` ↦ `x.pyi` (also `__init__.py` ↦ `__init__.pyi`) -/
 def stubOf (p : Path) : Path :=
   match p.getLast? with
